@@ -19,8 +19,8 @@ var Check = &vrt.Check{
 	Level: "exploration",
 	Rule: "one case = one scenario: register a port (0,1,2,7) with a simulated AGWPE TNC over an in-memory link with PRNG read segmentation or over loopback TCP with " +
 		"sleep-separated partial writes, dial (0..2 digipeaters) or accept, application writes (1 B..8 kB) concurrent with TNC bursts (1..256 frames of 1..2048 B, reader " +
-		"stalled during a burst or not, reader buffers 1/7/64/300/4096), interleaved frames for other ports/stations and unknown kinds, then remote disconnect / Flush+Close / " +
-		"Close in mid-stream / link drop. Fixed regression scenarios (one per known defect shape and per malformed reply) are part of both tiers. A scenario is non-trivial " +
+		"stalled during a burst or not, reader buffers 1/7/64/300/4096), interleaved frames for other ports/stations and unknown kinds, optionally a second live connection " +
+		"on the same port, then remote disconnect / Flush+Close / Close in mid-stream / Close, Port.Close+TNC.Close or link drop while the reader is stalled behind a full pipeline. Fixed regression scenarios (one per known defect shape and per malformed reply) are part of both tiers. A scenario is non-trivial " +
 		"when a connection was established and at least one payload byte crossed it and was compared with the ledger; distinct = distinct scenario parameter vectors",
 	Assumptions: []string{
 		"the simulated TNC reports at least one outstanding frame at the first 'Y' query after a 'D' frame and lets every frame drain after at most 3 queries (Write/Flush waiting for a TNC that never does is a liveness hazard outside the statement)",
@@ -57,7 +57,7 @@ func plan(seed int64, tier string) []vrt.Case {
 	}
 	nStream, nOdd := 84, 12
 	if tier == "thorough" {
-		nStream, nOdd = 2800, 160
+		nStream, nOdd = 5600, 340
 	}
 	for i := 0; i < nStream; i++ {
 		add(fmt.Sprintf("stream-%04d", i), randomStream(seed, i))
@@ -88,12 +88,19 @@ func fixedScenarios() []fixed {
 	// data field arriving in more than one read
 	mk("split-data-pipe-bytes", func(sc *scenario) { sc.Seg = "bytes" })
 	mk("split-data-pipe-hostile", func(sc *scenario) { sc.Seg = "hostile"; sc.Bursts = []burst{{Frames: 20, MinSz: 1, MaxSz: 2048}} })
-	mk("split-data-tcp", func(sc *scenario) { sc.Link, sc.Seg = "tcp", "cut100"; sc.Bursts = []burst{{Frames: 6, MinSz: 300, MaxSz: 300}} })
+	mk("split-data-tcp", func(sc *scenario) {
+		sc.Link, sc.Seg = "tcp", "cut100"
+		sc.Bursts = []burst{{Frames: 6, MinSz: 300, MaxSz: 300}}
+	})
 	// caller buffer smaller than a frame
 	for _, rb := range []int{1, 7, 64} {
 		mk(fmt.Sprintf("small-buffer-%d", rb), func(sc *scenario) { sc.Seg = "whole"; sc.RBuf = rb })
 	}
-	mk("small-buffer-300-frames-2048", func(sc *scenario) { sc.Seg = "whole"; sc.RBuf = 300; sc.Bursts = []burst{{Frames: 5, MinSz: 2048, MaxSz: 2048}} })
+	mk("small-buffer-300-frames-2048", func(sc *scenario) {
+		sc.Seg = "whole"
+		sc.RBuf = 300
+		sc.Bursts = []burst{{Frames: 5, MinSz: 2048, MaxSz: 2048}}
+	})
 	// ports other than 0: connect, disconnect, unregister, UI
 	for _, p := range []int{1, 2, 7} {
 		mk(fmt.Sprintf("port-%d-dial", p), func(sc *scenario) { sc.Seg = "whole"; sc.Port = p; sc.End = "app-close" })
@@ -109,7 +116,10 @@ func fixedScenarios() []fixed {
 		sc.Bursts = []burst{{Frames: 64, MinSz: 100, MaxSz: 100}}
 	})
 	mk("burst-fast-reader-pipe", func(sc *scenario) { sc.Seg = "whole"; sc.Bursts = []burst{{Frames: 64, MinSz: 100, MaxSz: 100}} })
-	mk("burst-stalled-reader-pipe", func(sc *scenario) { sc.Seg = "whole"; sc.Bursts = []burst{{Frames: 128, MinSz: 1, MaxSz: 120, StallMs: 60}} })
+	mk("burst-stalled-reader-pipe", func(sc *scenario) {
+		sc.Seg = "whole"
+		sc.Bursts = []burst{{Frames: 128, MinSz: 1, MaxSz: 120, StallMs: 60}}
+	})
 	mk("burst-stalled-reader-tcp", func(sc *scenario) {
 		sc.Link, sc.Seg = "tcp", "cut0"
 		sc.Bursts = []burst{{Frames: 256, MinSz: 1, MaxSz: 120, StallMs: 60}}
